@@ -2,3 +2,5 @@ import RpyModel.Scalar
 import RpyModel.Codec
 import RpyModel.Reservoir
 import RpyModel.Drv.C01
+import RpyModel.Windows
+import RpyModel.Drv.C17
